@@ -111,8 +111,7 @@ def describe_rv(body, rv, depth=6, at=None):
         return describe(body, rv['op'], depth, at=at)
     if k in ('ref', 'rawptr'):
         pl = rv['pl']
-        if not pl['p'] and not (1 <= pl['l'] <= body.arg_count) and body.single_def(pl['l']) is not None \
-                and body.local_name(pl['l']) is None:
+        if not pl['p'] and not (1 <= pl['l'] <= body.arg_count) and body.single_def(pl['l']) is not None:
             return '&' + describe(body, {'k': 'copy', 'pl': pl}, depth - 1)
         if pl['p'] and pl['p'][0][0] == 'deref' and len(pl['p']) == 1:
             d = body.single_def(pl['l'])
@@ -268,7 +267,13 @@ def explore(body, tracked=None, summaries=None, max_states=20000, on_call=None):
         blk = body.blocks[bb]
         env = dict(env)
         for s in blk['stmts']:
+            if s['k'] == 'assign' and not s['lhs']['p'] and s['rv']['k'] == 'agg' and s['rv'].get('ak') == 'adt':
+                env[('v', s['lhs']['l'])] = s['rv']['variant']
             p, var = assign_effect(env, s)
+            if p is not None and var is None and s['k'] == 'assign' and s['rv']['k'] == 'use':
+                lv = op_local(s['rv']['op'])
+                if lv is not None and ('v', lv) in env:
+                    var = env[('v', lv)]
             if p is not None:
                 if s['k'] == 'setdiscr':
                     # map index -> name through the tracked enum's variant order
@@ -338,6 +343,16 @@ def explore(body, tracked=None, summaries=None, max_states=20000, on_call=None):
             desc, labels, dplace = switch_info(body, bb)
             targets = [(v, b) for v, b in t['targets']]
             listed = set(v for v, _ in targets)
+            if desc in env and dplace is None and '?' not in env[desc]:
+                # a tracked boolean place (e.g. a configuration flag of `self`)
+                cur = env[desc]
+                for v, b in targets + [('otherwise', t['otherwise'])]:
+                    nm = 'false' if v == '0' else 'true'
+                    if nm in cur:
+                        e2 = dict(env)
+                        e2[desc] = frozenset([nm])
+                        stack.append((b, e2, decisions + ((bb, desc, v),), blocks, calls, ret))
+                continue
             sl = op_local(t['op'])
             if sl is not None and env.get(('c', sl)) is not None:
                 cv = str(env[('c', sl)])
